@@ -23,7 +23,7 @@ LEVEL_TEXT = ("PARTIAL. Proved (model): the class chosen for an entry is the reg
               "build_simulation, dumped with asdict+yaml and re-read; class, field values, round-trip equality, selected components and scheduler "
               "wiring are compared with the model and with the property directly.")
 LEVEL_NOTE = "Trusts: Lean kernel; the abstract dispatch model; pydantic v1 and PyYAML (not modelled); each case runs in a fresh Python process."
-ASSUMPTIONS = ["config classes are pydantic dataclasses deriving from ComponentConfig", "type tags are module.QualName"]
+ASSUMPTIONS = ["config classes are pydantic dataclasses deriving from ComponentConfig, directly or through other config classes", "type tags are module.QualName"]
 WORKER = os.path.join(os.path.dirname(os.path.dirname(os.path.abspath(__file__))), "c17_worker.py")
 
 
@@ -44,6 +44,14 @@ def gen_spec(rng, n_classes, order, unknown=False):
     modules = {}
     for m, c, f in classes:
         modules.setdefault(m, []).append([c, f])
+    # config classes derived from another config class (two levels below ComponentConfig, and a third):
+    # an entry tagged with the derived class must load as the derived class
+    if rng.random() < 0.6:
+        modules["gm0"].append(["D0", [["extra", "int = 0"]], "K0"])
+        classes.append(("gm0", "D0", sig_a + [["extra", "int"]]))
+        if rng.random() < 0.5:
+            modules["gm0"].append(["E0", [["more", "str = ''"]], "D0"])
+            classes.append(("gm0", "E0", sig_a + [["extra", "int"], ["more", "str"]]))
     names = []
 
     def entry(depth, prefix):
